@@ -940,8 +940,7 @@ def nest_dispatch(ctx: Ctx) -> None:
             h = mf.children.get(e.id) if isinstance(e, ast.Name) else None
             if h is not None and h.is_func and pol_ is not None:
                 verdicts.append(_yields(h) == pol_)
-    ctx.need(len(verdicts) >= 2, "make_fused_function: which inner function is returned for generator / plain outer functions is not recognised")
-    ok = all(verdicts)
+    ok = ctx.present(mf, len(verdicts) >= 2, "make_fused_function: which inner function is returned for generator / plain outer functions") and all(verdicts)
     ctx.ob(mf, rets[0] if rets else mf.node, ok, "the fused function is a generator exactly when the outer function is one (multiple outputs)", sel="dispatch:generator")
     g = repo.get(f"{A.PBW}.make_fused_function.fused_func_generator")
     ok = any(isinstance(n, ast.YieldFrom) for n in g.own_nodes())
